@@ -234,15 +234,13 @@ Definition mat_of (o : pop RNum) : mat3 Cops :=
 Definition is_rot (o : pop RNum) : Prop :=
   match o with PPhi _ | PT _ _ _ => True | _ => False end.
 
-(* numpy.mod(x, m) for m > 0 : x - m * floor(x / m) *)
-Definition rmod (x m : R) : R := x - m * IZR (Int_part (x / m)).
-
 Definition e3 : triple Cops := @mk3 Cops (RtoC 0) (RtoC 0) (RtoC 1).
 
-(* estimate_alpha(values, rf), lines 200-222 *)
-Definition estimate_alpha_post (z : R) : R :=
-  let absZ := rmod (z + 1) 2 - 1 in
-  rmod (acos absZ / PI * 180 + 180) 360 - 180.
+(* np.clip(z, -1, 1) = minimum(maximum(z, -1), 1) *)
+Definition clip1 (z : R) : R := Rmin (Rmax z (-1)) 1.
+
+(* estimate_alpha(values, rf), lines 200-223 (after fix 4cedc70: the cosine is clipped, no mod wrapping) *)
+Definition estimate_alpha_post (z : R) : R := acos (clip1 z) / PI * 180.
 Definition estimate_alpha (vals : list (R * R)) (rf : R) : R :=
   let M := combine_multi (map (fun v => rotation_operator (rf * 180 * fst v) (snd v)) vals) in
   estimate_alpha_post (fst (fz (mv M e3))).
